@@ -1,4 +1,5 @@
 import TaskModel.Vars.Model
+import TaskModel.Vars.Dotenv
 import Driver.Util
 /-!
 `vars.resolve <rootDir> <dirAfter> <ntpl> part* <nbase> (name val)* { <ndefs> (name kind <nparts> part*)* }×6 <nq> name*`
@@ -125,10 +126,19 @@ def doEnvChain : P String := do
   let st := envChain os g t
   pure (" ".intercalate ((g ++ t).map (fun e => s!"{e.1}={showStr ((st.lookup e.1).getD [])}")))
 
+/-- `vars.dotenvchain <n> {name <nparts> part*}*` (entries in the order of the FILE; names = ranks of the real
+names in byte order) → `name=<variable value>/<environment value>` for every entry, in key order -/
+def doDotenvChain : P String := do
+  let n ← nat
+  let es ← many n (do let k ← nat; let ps ← parts; pure ((k, ps) : DEntry))
+  let st := dotenvChain [] es
+  pure (" ".intercalate ((dotenvEnv [] es).map (fun e => s!"{e.1}={showStr (get st e.1)}/{showStr e.2}")))
+
 def handle (op : String) (args : List String) : Option String :=
   let run (p : P String) := match p.run args with | some (r, []) => some r | _ => none
   match op with
   | "vars.envchain" => run doEnvChain
+  | "vars.dotenvchain" => run doDotenvChain
   | "vars.loop" => run doLoop
   | "vars.resolve" => run doResolve
   | "vars.env" => run doEnv
